@@ -148,7 +148,7 @@ PROPS = {
     },
     "C09": {
         "props": "TrackVerif.GPMF.PropsC09",
-        "streams": [("GM", 3000, 50000), ("M4", 1500, 25000)],
+        "streams": [("GM", 3000, 40000), ("M4", 1500, 25000)],
         "clauses": ["gm.no_panic", "gm.no_hang", "m4.no_panic", "m4.no_hang"],
         "rule": "reader: 90% malformed input (1..3 mutations of generated trees: bit flips, truncation, header-field overwrite, zeroed words, random tail, duplicated slices; mutated heads of "
                 "the real captures; random bytes), corpus of every past crasher; decoder: 80% broken sample tables (zero timescale, FirstChunk 0, zero / huge samples-per-chunk, "
